@@ -345,7 +345,8 @@ impl WalRecord {
                 let count = u32::from_le_bytes(payload[8..12].try_into().unwrap()) as usize;
 
                 let segments_end = 12 + count * 16;
-                if payload.len() < segments_end + 8 {
+                // two u64 roots (properties_root, stats_root) follow the segment list
+                if payload.len() < segments_end + 16 {
                     return Err(Error::WalProtocol("invalid ManifestSwitch payload length"));
                 }
 
